@@ -96,3 +96,10 @@ Theorem C01_taint_order_irrelevant : forall tols tols' tas tas',
   Permutation tas tas' -> Permutation tols tols' -> tolerates_taints tols tas = tolerates_taints tols' tas'.
 Proof. exact taint_order_irrelevant. Qed.
 Print Assumptions C01_taint_order_irrelevant.
+
+(** ... and the node selector always applies, whatever the affinity block looks like (absent, empty, preferences only, or
+    required terms) *)
+Theorem C01_node_selector_always_applies : forall t tols n,
+  fit_tols t tols n = true -> set_matches (t_nodesel t) (n_labels n) = true.
+Proof. exact node_selector_always_applies. Qed.
+Print Assumptions C01_node_selector_always_applies.
